@@ -34,7 +34,9 @@ macro "fsimp" : tactic => `(tactic| field_simp (disch := first | assumption | li
 theorem modLG_ok (p : BlakeModLG.P) (h : BlakeModLG.outcome p = .ok) :
     IsoMaterial (BlakeModLG.lame_mod p) (BlakeModLG.shear_mod p) (BlakeModLG.youngs_mod p) (BlakeModLG.poisson_ratio p) (BlakeModLG.bulk_mod p) (BlakeModLG.long_mod p)
       ∧ BlakeModLG.lame_mod p = p.lame_mod ∧ BlakeModLG.shear_mod p = p.shear_mod := by
-  epv_paths (
+  unfold BlakeModLG.outcome at h
+  unfold BlakeModLG.lame_mod BlakeModLG.shear_mod BlakeModLG.youngs_mod BlakeModLG.poisson_ratio BlakeModLG.bulk_mod BlakeModLG.long_mod
+  epv_walk (
     simp only [epv_cond] at *
     simp only [epv_leaf]
     simp only [not_le, not_lt] at *
@@ -44,7 +46,9 @@ theorem modLG_ok (p : BlakeModLG.P) (h : BlakeModLG.outcome p = .ok) :
 theorem modLE_ok (p : BlakeModLE.P) (h : BlakeModLE.outcome p = .ok) :
     IsoMaterial (BlakeModLE.lame_mod p) (BlakeModLE.shear_mod p) (BlakeModLE.youngs_mod p) (BlakeModLE.poisson_ratio p) (BlakeModLE.bulk_mod p) (BlakeModLE.long_mod p)
       ∧ BlakeModLE.lame_mod p = p.lame_mod ∧ BlakeModLE.youngs_mod p = p.youngs_mod := by
-  epv_paths (
+  unfold BlakeModLE.outcome at h
+  unfold BlakeModLE.lame_mod BlakeModLE.shear_mod BlakeModLE.youngs_mod BlakeModLE.poisson_ratio BlakeModLE.bulk_mod BlakeModLE.long_mod
+  epv_walk (
     simp only [epv_cond] at *
     simp only [epv_leaf]
     simp only [not_le, not_lt] at *
@@ -58,7 +62,9 @@ theorem modLE_ok (p : BlakeModLE.P) (h : BlakeModLE.outcome p = .ok) :
 theorem modLNu_ok (p : BlakeModLNu.P) (h : BlakeModLNu.outcome p = .ok) :
     IsoMaterial (BlakeModLNu.lame_mod p) (BlakeModLNu.shear_mod p) (BlakeModLNu.youngs_mod p) (BlakeModLNu.poisson_ratio p) (BlakeModLNu.bulk_mod p) (BlakeModLNu.long_mod p)
       ∧ BlakeModLNu.lame_mod p = p.lame_mod ∧ BlakeModLNu.poisson_ratio p = p.poisson_ratio := by
-  epv_paths (
+  unfold BlakeModLNu.outcome at h
+  unfold BlakeModLNu.lame_mod BlakeModLNu.shear_mod BlakeModLNu.youngs_mod BlakeModLNu.poisson_ratio BlakeModLNu.bulk_mod BlakeModLNu.long_mod
+  epv_walk (
     simp only [epv_cond] at *
     simp only [epv_leaf]
     simp only [not_le, not_lt] at *
@@ -74,7 +80,9 @@ theorem modLNu_ok (p : BlakeModLNu.P) (h : BlakeModLNu.outcome p = .ok) :
 theorem modLK_ok (p : BlakeModLK.P) (h : BlakeModLK.outcome p = .ok) :
     IsoMaterial (BlakeModLK.lame_mod p) (BlakeModLK.shear_mod p) (BlakeModLK.youngs_mod p) (BlakeModLK.poisson_ratio p) (BlakeModLK.bulk_mod p) (BlakeModLK.long_mod p)
       ∧ BlakeModLK.lame_mod p = p.lame_mod ∧ BlakeModLK.bulk_mod p = p.bulk_mod := by
-  epv_paths (
+  unfold BlakeModLK.outcome at h
+  unfold BlakeModLK.lame_mod BlakeModLK.shear_mod BlakeModLK.youngs_mod BlakeModLK.poisson_ratio BlakeModLK.bulk_mod BlakeModLK.long_mod
+  epv_walk (
     simp only [epv_cond] at *
     simp only [epv_leaf]
     simp only [not_le, not_lt] at *
@@ -84,7 +92,9 @@ theorem modLK_ok (p : BlakeModLK.P) (h : BlakeModLK.outcome p = .ok) :
 theorem modLM_ok (p : BlakeModLM.P) (h : BlakeModLM.outcome p = .ok) :
     IsoMaterial (BlakeModLM.lame_mod p) (BlakeModLM.shear_mod p) (BlakeModLM.youngs_mod p) (BlakeModLM.poisson_ratio p) (BlakeModLM.bulk_mod p) (BlakeModLM.long_mod p)
       ∧ BlakeModLM.lame_mod p = p.lame_mod ∧ BlakeModLM.long_mod p = p.long_mod := by
-  epv_paths (
+  unfold BlakeModLM.outcome at h
+  unfold BlakeModLM.lame_mod BlakeModLM.shear_mod BlakeModLM.youngs_mod BlakeModLM.poisson_ratio BlakeModLM.bulk_mod BlakeModLM.long_mod
+  epv_walk (
     simp only [epv_cond] at *
     simp only [epv_leaf]
     simp only [not_le, not_lt] at *
@@ -94,7 +104,9 @@ theorem modLM_ok (p : BlakeModLM.P) (h : BlakeModLM.outcome p = .ok) :
 theorem modGE_ok (p : BlakeModGE.P) (h : BlakeModGE.outcome p = .ok) :
     IsoMaterial (BlakeModGE.lame_mod p) (BlakeModGE.shear_mod p) (BlakeModGE.youngs_mod p) (BlakeModGE.poisson_ratio p) (BlakeModGE.bulk_mod p) (BlakeModGE.long_mod p)
       ∧ BlakeModGE.shear_mod p = p.shear_mod ∧ BlakeModGE.youngs_mod p = p.youngs_mod := by
-  epv_paths (
+  unfold BlakeModGE.outcome at h
+  unfold BlakeModGE.lame_mod BlakeModGE.shear_mod BlakeModGE.youngs_mod BlakeModGE.poisson_ratio BlakeModGE.bulk_mod BlakeModGE.long_mod
+  epv_walk (
     simp only [epv_cond] at *
     simp only [epv_leaf]
     simp only [not_le, not_lt] at *
@@ -120,7 +132,9 @@ theorem modGE_ok (p : BlakeModGE.P) (h : BlakeModGE.outcome p = .ok) :
 theorem modGNu_ok (p : BlakeModGNu.P) (h : BlakeModGNu.outcome p = .ok) :
     IsoMaterial (BlakeModGNu.lame_mod p) (BlakeModGNu.shear_mod p) (BlakeModGNu.youngs_mod p) (BlakeModGNu.poisson_ratio p) (BlakeModGNu.bulk_mod p) (BlakeModGNu.long_mod p)
       ∧ BlakeModGNu.shear_mod p = p.shear_mod ∧ BlakeModGNu.poisson_ratio p = p.poisson_ratio := by
-  epv_paths (
+  unfold BlakeModGNu.outcome at h
+  unfold BlakeModGNu.lame_mod BlakeModGNu.shear_mod BlakeModGNu.youngs_mod BlakeModGNu.poisson_ratio BlakeModGNu.bulk_mod BlakeModGNu.long_mod
+  epv_walk (
     simp only [epv_cond] at *
     simp only [epv_leaf]
     simp only [not_le, not_lt] at *
@@ -141,7 +155,9 @@ theorem modGNu_ok (p : BlakeModGNu.P) (h : BlakeModGNu.outcome p = .ok) :
 theorem modGK_ok (p : BlakeModGK.P) (h : BlakeModGK.outcome p = .ok) :
     IsoMaterial (BlakeModGK.lame_mod p) (BlakeModGK.shear_mod p) (BlakeModGK.youngs_mod p) (BlakeModGK.poisson_ratio p) (BlakeModGK.bulk_mod p) (BlakeModGK.long_mod p)
       ∧ BlakeModGK.shear_mod p = p.shear_mod ∧ BlakeModGK.bulk_mod p = p.bulk_mod := by
-  epv_paths (
+  unfold BlakeModGK.outcome at h
+  unfold BlakeModGK.lame_mod BlakeModGK.shear_mod BlakeModGK.youngs_mod BlakeModGK.poisson_ratio BlakeModGK.bulk_mod BlakeModGK.long_mod
+  epv_walk (
     simp only [epv_cond] at *
     simp only [epv_leaf]
     simp only [not_le, not_lt] at *
@@ -152,7 +168,9 @@ theorem modGK_ok (p : BlakeModGK.P) (h : BlakeModGK.outcome p = .ok) :
 theorem modGM_ok (p : BlakeModGM.P) (h : BlakeModGM.outcome p = .ok) :
     IsoMaterial (BlakeModGM.lame_mod p) (BlakeModGM.shear_mod p) (BlakeModGM.youngs_mod p) (BlakeModGM.poisson_ratio p) (BlakeModGM.bulk_mod p) (BlakeModGM.long_mod p)
       ∧ BlakeModGM.shear_mod p = p.shear_mod ∧ BlakeModGM.long_mod p = p.long_mod := by
-  epv_paths (
+  unfold BlakeModGM.outcome at h
+  unfold BlakeModGM.lame_mod BlakeModGM.shear_mod BlakeModGM.youngs_mod BlakeModGM.poisson_ratio BlakeModGM.bulk_mod BlakeModGM.long_mod
+  epv_walk (
     simp only [epv_cond] at *
     simp only [epv_leaf]
     simp only [not_le, not_lt] at *
@@ -181,7 +199,9 @@ theorem modGM_ok (p : BlakeModGM.P) (h : BlakeModGM.outcome p = .ok) :
 theorem modENu_ok (p : BlakeModENu.P) (h : BlakeModENu.outcome p = .ok) :
     IsoMaterial (BlakeModENu.lame_mod p) (BlakeModENu.shear_mod p) (BlakeModENu.youngs_mod p) (BlakeModENu.poisson_ratio p) (BlakeModENu.bulk_mod p) (BlakeModENu.long_mod p)
       ∧ BlakeModENu.youngs_mod p = p.youngs_mod ∧ BlakeModENu.poisson_ratio p = p.poisson_ratio := by
-  epv_paths (
+  unfold BlakeModENu.outcome at h
+  unfold BlakeModENu.lame_mod BlakeModENu.shear_mod BlakeModENu.youngs_mod BlakeModENu.poisson_ratio BlakeModENu.bulk_mod BlakeModENu.long_mod
+  epv_walk (
     simp only [epv_cond] at *
     simp only [epv_leaf]
     simp only [not_le, not_lt] at *
@@ -208,7 +228,9 @@ theorem modENu_ok (p : BlakeModENu.P) (h : BlakeModENu.outcome p = .ok) :
 theorem modEK_ok (p : BlakeModEK.P) (h : BlakeModEK.outcome p = .ok) :
     IsoMaterial (BlakeModEK.lame_mod p) (BlakeModEK.shear_mod p) (BlakeModEK.youngs_mod p) (BlakeModEK.poisson_ratio p) (BlakeModEK.bulk_mod p) (BlakeModEK.long_mod p)
       ∧ BlakeModEK.youngs_mod p = p.youngs_mod ∧ BlakeModEK.bulk_mod p = p.bulk_mod := by
-  epv_paths (
+  unfold BlakeModEK.outcome at h
+  unfold BlakeModEK.lame_mod BlakeModEK.shear_mod BlakeModEK.youngs_mod BlakeModEK.poisson_ratio BlakeModEK.bulk_mod BlakeModEK.long_mod
+  epv_walk (
     simp only [epv_cond] at *
     simp only [epv_leaf]
     simp only [not_le, not_lt] at *
@@ -238,7 +260,9 @@ theorem modEK_ok (p : BlakeModEK.P) (h : BlakeModEK.outcome p = .ok) :
 theorem modEM_ok (p : BlakeModEM.P) (h : BlakeModEM.outcome p = .ok) :
     IsoMaterial (BlakeModEM.lame_mod p) (BlakeModEM.shear_mod p) (BlakeModEM.youngs_mod p) (BlakeModEM.poisson_ratio p) (BlakeModEM.bulk_mod p) (BlakeModEM.long_mod p)
       ∧ BlakeModEM.youngs_mod p = p.youngs_mod ∧ BlakeModEM.long_mod p = p.long_mod := by
-  epv_paths (
+  unfold BlakeModEM.outcome at h
+  unfold BlakeModEM.lame_mod BlakeModEM.shear_mod BlakeModEM.youngs_mod BlakeModEM.poisson_ratio BlakeModEM.bulk_mod BlakeModEM.long_mod
+  epv_walk (
     simp only [epv_cond] at *
     simp only [epv_leaf]
     simp only [not_le, not_lt] at *
@@ -269,7 +293,9 @@ theorem modEM_ok (p : BlakeModEM.P) (h : BlakeModEM.outcome p = .ok) :
 theorem modNuK_ok (p : BlakeModNuK.P) (h : BlakeModNuK.outcome p = .ok) :
     IsoMaterial (BlakeModNuK.lame_mod p) (BlakeModNuK.shear_mod p) (BlakeModNuK.youngs_mod p) (BlakeModNuK.poisson_ratio p) (BlakeModNuK.bulk_mod p) (BlakeModNuK.long_mod p)
       ∧ BlakeModNuK.poisson_ratio p = p.poisson_ratio ∧ BlakeModNuK.bulk_mod p = p.bulk_mod := by
-  epv_paths (
+  unfold BlakeModNuK.outcome at h
+  unfold BlakeModNuK.lame_mod BlakeModNuK.shear_mod BlakeModNuK.youngs_mod BlakeModNuK.poisson_ratio BlakeModNuK.bulk_mod BlakeModNuK.long_mod
+  epv_walk (
     simp only [epv_cond] at *
     simp only [epv_leaf]
     simp only [not_le, not_lt] at *
@@ -294,7 +320,9 @@ theorem modNuK_ok (p : BlakeModNuK.P) (h : BlakeModNuK.outcome p = .ok) :
 theorem modNuM_ok (p : BlakeModNuM.P) (h : BlakeModNuM.outcome p = .ok) :
     IsoMaterial (BlakeModNuM.lame_mod p) (BlakeModNuM.shear_mod p) (BlakeModNuM.youngs_mod p) (BlakeModNuM.poisson_ratio p) (BlakeModNuM.bulk_mod p) (BlakeModNuM.long_mod p)
       ∧ BlakeModNuM.poisson_ratio p = p.poisson_ratio ∧ BlakeModNuM.long_mod p = p.long_mod := by
-  epv_paths (
+  unfold BlakeModNuM.outcome at h
+  unfold BlakeModNuM.lame_mod BlakeModNuM.shear_mod BlakeModNuM.youngs_mod BlakeModNuM.poisson_ratio BlakeModNuM.bulk_mod BlakeModNuM.long_mod
+  epv_walk (
     simp only [epv_cond] at *
     simp only [epv_leaf]
     simp only [not_le, not_lt] at *
@@ -320,7 +348,9 @@ theorem modNuM_ok (p : BlakeModNuM.P) (h : BlakeModNuM.outcome p = .ok) :
 theorem modKM_ok (p : BlakeModKM.P) (h : BlakeModKM.outcome p = .ok) :
     IsoMaterial (BlakeModKM.lame_mod p) (BlakeModKM.shear_mod p) (BlakeModKM.youngs_mod p) (BlakeModKM.poisson_ratio p) (BlakeModKM.bulk_mod p) (BlakeModKM.long_mod p)
       ∧ BlakeModKM.bulk_mod p = p.bulk_mod ∧ BlakeModKM.long_mod p = p.long_mod := by
-  epv_paths (
+  unfold BlakeModKM.outcome at h
+  unfold BlakeModKM.lame_mod BlakeModKM.shear_mod BlakeModKM.youngs_mod BlakeModKM.poisson_ratio BlakeModKM.bulk_mod BlakeModKM.long_mod
+  epv_walk (
     simp only [epv_cond] at *
     simp only [epv_leaf]
     simp only [not_le, not_lt] at *
